@@ -1144,8 +1144,10 @@ var pdfGrammar = &gramSpec{
 		n, ok := derefNamed(info.TypeOf(e))
 		return ok && n == "pdfPageWriter"
 	},
-	ops:     pdfOperators,
-	hasText: true,
+	ops:       pdfOperators,
+	hasText:   true,
+	saveOp:    "q",
+	restoreOp: "Q",
 }
 
 // E5Grammar: the content-stream fragments form only PDF operators, balanced q/Q and BT/ET.
